@@ -146,7 +146,8 @@ func getAssets() (*assets, error) {
 }
 
 // strings 3..8 (standard font only): unbalanced and balanced parentheses and a backslash inside a shown literal string
-var texts = map[int]string{1: "AVfi ab", 2: "Tofu fi", 3: "a(b", 4: "a)b", 5: "a\\b", 6: "(x)", 7: "1) item :-(", 8: "[0, 1)"}
+// strings 10, 11 (embedded fonts): glyph coverage - no character / only the first character is covered by the font
+var texts = map[int]string{1: "AVfi ab", 2: "Tofu fi", 3: "a(b", 4: "a)b", 5: "a\\b", 6: "(x)", 7: "1) item :-(", 8: "[0, 1)", 10: "\u4e2d\u6587", 11: "A\u4e2d"}
 var uris = map[int]string{1: "http://example.com/a", 2: "http://x.y/(a)\\b)"}
 
 func cpString(cps []int) string {
@@ -263,6 +264,15 @@ func execute(s *Scenario, a *assets) (res *result, ms []core.Mismatch) {
 			str := texts[c.B]
 			if c.B == 9 {
 				str = a.manyGlyphs(face, 296)
+			}
+			if c.B == 10 || c.B == 11 {
+				// the dimension is real only if the font lacks U+4E2D / U+6587 (and has "A")
+				for _, r := range str {
+					if (face.Font.GlyphIndex(r) == 0) != (r >= 0x4e00) {
+						ms = append(ms, core.Mismatch{Signature: "machinery", Detail: fmt.Sprintf("coverage of U+%04X by font %d is not what string %d assumes", r, c.A, c.B)})
+						return
+					}
+				}
 			}
 			var t *canvas.Text
 			if c.C == 1 {
@@ -988,7 +998,7 @@ func filterStdout(c *core.Ctx) (restore func()) {
 }
 
 func (d Driver) Run(c *core.Ctx) error {
-	c.Rule = "scenario = document program (call slots over path/image/text/link/newpage with fill, stroke, alpha, fill rule, image alpha and encoding, font kind incl. a standard-14 font with strings that contain ( ) \\, writing mode) x {compress} x {subset} x metadata profile (classes of text per Info field and Lang), generated by TLC from spec/PDFDoc.tla (exhaustive up to 2 calls x 4 option sets and up to 3 calls with default options in the quick tier, up to 3 calls x 4 option sets in the thorough tier, over the small alphabet; the huge-coordinates family (view change to about +-3e9 + a fraction, then every call of the small alphabet, then nothing / link / new page of 8e8 mm; 180 documents); the standard-font sweep (108 documents: strings a(b, a)b, a\\b, (x), 1) item :-(, [0, 1) between other elements); the metadata sweep; RandomSubset programs over the full alphabet); every scenario is executed on the real pdf writer, its bytes are parsed by the independent reader and the record is validated by Trace_PDFDoc.tla; non-trivial = at least two different kinds of call (a second page counts), or a single-call document of the metadata sweep whose title has non-ASCII / CR / parenthesis / backslash characters; distinct by (options, program, profile, infoAt)"
+	c.Rule = "scenario = document program (call slots over path/image/text/link/newpage with fill, stroke, alpha, fill rule, image alpha and encoding, font kind incl. a standard-14 font with strings that contain ( ) \\, writing mode) x {compress} x {subset} x metadata profile (classes of text per Info field and Lang), generated by TLC from spec/PDFDoc.tla (exhaustive up to 2 calls x 4 option sets and up to 3 calls with default options in the quick tier, up to 3 calls x 4 option sets in the thorough tier, over the small alphabet; the huge-coordinates family (view change to about +-3e9 + a fraction, then every call of the small alphabet, then nothing / link / new page of 8e8 mm; 180 documents); the standard-font sweep (108 documents: strings a(b, a)b, a\\b, (x), 1) item :-(, [0, 1) between other elements); the glyph-coverage sweep (576 documents: a text of which the embedded TrueType / CFF font covers no character (U+4E2D U+6587, only .notdef shown) or only a part, horizontal and vertical, alone / next to another font / before or after a covered text in the same font on the same or another page, x 4 option sets); the metadata sweep; RandomSubset programs over the full alphabet); every scenario is executed on the real pdf writer, its bytes are parsed by the independent reader and the record is validated by Trace_PDFDoc.tla; non-trivial = at least two different kinds of call (a second page counts), or a single-call document of the metadata sweep whose title has non-ASCII / CR / parenthesis / backslash characters; distinct by (options, program, profile, infoAt)"
 	c.Assumptions = []string{
 		"the independent reader (oracle/pdfread.go) implements the classic file structure of ISO 32000-1 (one xref table, no object streams); Flate/ASCII85/ASCIIHex are decoded, DCT is verified with image/jpeg, any other filter counts as 'unsupported' and is never a failure",
 		"font programs, image samples and colour values are not inspected here (C18 / C12); only the file structure, resources, operator syntax and metadata",
@@ -1121,6 +1131,8 @@ func (d Driver) Run(c *core.Ctx) error {
 	goRun(tlc.Opts{Module: "PDFDoc", Workers: 2, Config: genCfg(3, "far", "small", 0, false)})
 	// text in a standard (not embedded, WinAnsi) font with parentheses / backslash in the shown strings
 	goRun(tlc.Opts{Module: "PDFDoc", Workers: 2, Config: genCfg(3, "std", "small", 0, false)})
+	// glyph coverage: texts of which the selected embedded font covers nothing / a part (only .notdef is shown with that font)
+	goRun(tlc.Opts{Module: "PDFDoc", Workers: 2, Config: genCfg(3, "cover", "small", 0, false)})
 	// metadata sweep: classes of text x fields x Lang x SetInfo before/after drawing
 	goRun(tlc.Opts{Module: "PDFDoc", Workers: 4, Config: genCfg(1, "info", "small", c.Pick(0, 1), false)}) // NRand # 0: with and without compression
 	// random programs over the full alphabet with random metadata profiles
